@@ -63,6 +63,8 @@ func eventKind(ev any) string {
 	switch ev.(type) {
 	case *CheckEv:
 		return "Check"
+	case *V2Ev:
+		return "V2Check"
 	case *ListObjectsEv:
 		return "ListObjects"
 	case *ListUsersEv:
